@@ -20,6 +20,20 @@
 //!                     case runs in a child process (`store --concurrent-case <dir> <seed> <tier>`),
 //!                     `--concurrent-in-process 1` keeps the cases in this process.
 //!
+//!  * `mem-kinds`, `rocks-kinds` – *kind confusion*: histories in which value operations are also
+//!                     issued through the identifier of an item used as a map and map operations
+//!                     through the identifier of an item used as a value. A store may refuse such an
+//!                     operation (`InvalidOperation`, the in-memory store) – then nothing may have
+//!                     changed – or accept it (RocksDB keeps values and maps in separate column
+//!                     families) – then it must be reflected by the later reads of that kind and the
+//!                     item's data of the other kind must be untouched. Every item is audited
+//!                     through both kinds of read. `rocks-kinds` has reopen points and tries to open
+//!                     the directory a second time while it is open.
+//!  * `rocks-transient` – `open_rocks_store(None, ..)` (store in a temporary directory): the same
+//!                     model, next to a second temporary store holding markers under the same names.
+//!  * `disabled`     – `StoreDisabled` (the store that stores nothing) under the weakened model
+//!                     "a read never returns what was not written" (extras.rs).
+//!
 //! A share of the `rocks-reopen` histories are *stride histories*: live items whose identifiers are
 //! an exact multiple of 256 apart (filler names registered in between), many `clear_map`s, every
 //! item read after each clear.
@@ -27,6 +41,8 @@
 //! `--only <part>[,<part>]` restricts the run to some parts (used for the valgrind pass).
 
 mod concurrent;
+mod extras;
+mod foreign;
 mod runner;
 mod script;
 
@@ -69,6 +85,8 @@ impl Backend for MemBackend {
 struct RocksBackend<S, F> {
     open_fn: F,
     server: Option<S>,
+    /// The directory `open_fn` opens (`None`: a new temporary directory per call).
+    dir: Option<PathBuf>,
 }
 
 impl<S, F> Backend for RocksBackend<S, F>
@@ -88,13 +106,36 @@ where
     fn closed(&mut self) {
         self.server = None;
     }
+
+    fn second_open(&mut self) -> Option<Result<(), StoreError>> {
+        if self.dir.is_none() || self.server.is_none() {
+            return None;
+        }
+        Some((self.open_fn)().and_then(|server| server.open_plane(PLANE).map(|_plane| ())))
+    }
+
+    fn foreign_map_key(&mut self, key: &[u8], value: &[u8]) -> Option<Result<(), String>> {
+        let dir = self.dir.as_ref()?;
+        if self.server.is_some() {
+            return Some(Err("the store is still open".to_string()));
+        }
+        Some(foreign::put_raw_map_key(dir, PLANE, key, value))
+    }
+}
+
+fn mk_rocks<S: ServerPersistence, F: Fn() -> Result<S, StoreError>>(open_fn: F, dir: Option<PathBuf>) -> RocksBackend<S, F> {
+    RocksBackend { open_fn, server: None, dir }
 }
 
 fn rocks_backend(dir: PathBuf) -> impl Backend {
-    fn mk<S: ServerPersistence, F: Fn() -> Result<S, StoreError>>(open_fn: F) -> RocksBackend<S, F> {
-        RocksBackend { open_fn, server: None }
-    }
-    mk(move || open_rocks_store(Some(dir.clone()), default_db_opts()))
+    let d = dir.clone();
+    mk_rocks(move || open_rocks_store(Some(d.clone()), default_db_opts()), Some(dir))
+}
+
+/// `open_rocks_store` without a path: a database in a temporary directory of its own, which lives
+/// as long as the server store (one per `open`; there is nothing to reopen).
+fn transient_backend() -> impl Backend {
+    mk_rocks(|| open_rocks_store(None, default_db_opts()), None)
 }
 
 /// Scratch directory of one case, removed when the case ends (also on a violation or a panic).
@@ -117,7 +158,7 @@ impl Drop for Scratch {
 // ------------------------------------------------------------------------------------------------
 // Generation parameters of the parts
 
-const BASE: GenParams = GenParams { equal_concat_pct: 12, min_ops: 30, max_ops: 140, reopen_weight: 0, handover: false, big_value_pct: 0, clear_extra: 0, audit_after_clear: false };
+const BASE: GenParams = GenParams { equal_concat_pct: 12, min_ops: 30, max_ops: 140, reopen_weight: 0, handover: false, big_value_pct: 0, clear_extra: 0, audit_after_clear: false, cross_pct: 0, second_open_weight: 0 };
 const MEM: GenParams = GenParams { handover: true, ..BASE };
 const REOPEN: GenParams = GenParams { min_ops: 25, max_ops: 110, ..BASE };
 const REOPEN_EVERY: GenParams = GenParams { min_ops: 15, max_ops: 45, ..BASE };
@@ -131,12 +172,24 @@ const STRIDE_EVERY: GenParams = GenParams { min_ops: 8, max_ops: 25, ..STRIDE };
 const KILL: GenParams = GenParams { equal_concat_pct: 0, min_ops: 30, max_ops: 120, reopen_weight: 3, big_value_pct: 6, ..BASE };
 const AFTER_KILL: GenParams = GenParams { equal_concat_pct: 0, min_ops: 15, max_ops: 40, reopen_weight: 2, ..BASE };
 
+/// Kind-confusion histories (see the module documentation). No deliberate equal-concatenation pair:
+/// that defect (D14) has its own parts.
+const MEM_KINDS: GenParams = GenParams { equal_concat_pct: 0, handover: true, cross_pct: 18, ..BASE };
+const ROCKS_KINDS: GenParams = GenParams { equal_concat_pct: 0, min_ops: 25, max_ops: 100, cross_pct: 15, second_open_weight: 2, ..BASE };
+const TRANSIENT: GenParams = GenParams { equal_concat_pct: 0, min_ops: 30, max_ops: 120, cross_pct: 6, ..BASE };
+const FOREIGN: GenParams = GenParams { equal_concat_pct: 0, min_ops: 12, max_ops: 30, ..BASE };
+const DISABLED: GenParams = GenParams { equal_concat_pct: 0, min_ops: 30, max_ops: 120, cross_pct: 10, ..BASE };
+
 fn fold_steps(out: &mut CaseOut, spec: &Spec, steps: &[Step]) {
     let mut h = Fnv::default();
     format!("{:?}", spec).hash(&mut h);
     for s in steps {
         s.name().hash(&mut h);
         s.target().hash(&mut h);
+        let (s, cross) = s.data_op();
+        if cross {
+            "other-kind".hash(&mut h);
+        }
         match s {
             Step::Put(_, _, v) => (v.len(), &v[..v.len().min(4)]).hash(&mut h),
             Step::Upd(_, _, k, v) => (k, v.len(), &v[..v.len().min(4)]).hash(&mut h),
@@ -284,6 +337,179 @@ fn case_rocks_reopen(case: u64, rng: &mut Rng, out: &mut CaseOut, thorough: bool
         out.set_sample(sample_of(&sc.spec, &steps, &sc.keys));
     }
     report(&mut r, out, "");
+}
+
+// ------------------------------------------------------------------------------------------------
+// Parts: kind confusion (in-memory; RocksDB with reopen points), RocksDB in a temporary directory
+
+fn counter(r: &std::collections::BTreeMap<String, u64>, prefix: &str) -> u64 {
+    r.iter().filter(|(k, _)| k.starts_with(prefix)).map(|(_, v)| *v).sum()
+}
+
+fn case_mem_kinds(case: u64, rng: &mut Rng, out: &mut CaseOut) {
+    let sc = gen_script(rng.next_u64(), &MEM_KINDS);
+    let steps = expand(&sc.spec, &sc.ops);
+    fold_steps(out, &sc.spec, &steps);
+    let mut r = Runner::new(&sc.spec, MemBackend::default());
+    r.kinds_mode = true;
+    r.context = json!("InMemoryPlanePersistence::default(), one plane; value operations also through identifiers of map items and map operations through identifiers of value items");
+    let done = run_steps(&mut r, &steps, out);
+    let confused = counter(&r.counters, "refused_InvalidOperation/") + counter(&r.counters, "other_kind_accepted/");
+    let read_data = r.counters.get("read_map_entries_ok").copied().unwrap_or(0) + r.counters.get("get_value_some_ok").copied().unwrap_or(0) > 0;
+    out.nontrivial = (done && confused > 0 && read_data) || !r.viols.is_empty();
+    if case < 3 {
+        out.set_sample(sample_of(&sc.spec, &steps, &sc.keys));
+    }
+    report(&mut r, out, "");
+}
+
+fn case_rocks_kinds(case: u64, rng: &mut Rng, out: &mut CaseOut, thorough: bool) {
+    let sc = gen_script(rng.next_u64(), &ROCKS_KINDS);
+    let n = sc.ops.len();
+    let mut at: Vec<usize> = (0..3).map(|_| rng.usize_below(n)).collect();
+    if thorough {
+        at.extend((0..n).filter(|_| rng.chance(1, 10)));
+    }
+    let mut ops: Vec<Op> = Vec::new();
+    for (k, op) in sc.ops.iter().enumerate() {
+        ops.push(op.clone());
+        if at.contains(&k) {
+            ops.push(Op::Reopen);
+        }
+    }
+    ops.push(Op::Reopen);
+    ops.push(Op::AuditBoth);
+    let steps = expand(&sc.spec, &ops);
+    fold_steps(out, &sc.spec, &steps);
+    let scratch = Scratch::new("kinds", case);
+    let mut r = Runner::new(&sc.spec, rocks_backend(scratch.0.clone()));
+    r.kinds_mode = true;
+    r.context = json!("open_rocks_store(Some(scratch dir), default_db_opts()), one plane; value operations also through identifiers of map items and map operations through identifiers of value items; reopen = drop every handle, then open the same directory");
+    if rng.chance(1, 6) {
+        r.burn_ids(*rng.pick(&[130usize, 260]));
+        out.count("histories_starting_beyond_one_byte_ids");
+    }
+    let done = run_steps(&mut r, &steps, out);
+    r.close_all();
+    let with_data = out.counters.get("reopen_points_with_data_in_store").copied().unwrap_or(0) > 0;
+    let confused = counter(&r.counters, "refused_InvalidOperation/") + counter(&r.counters, "other_kind_accepted/");
+    out.nontrivial = (done && with_data && confused > 0) || !r.viols.is_empty();
+    if case < 3 {
+        out.set_sample(sample_of(&sc.spec, &steps, &sc.keys));
+    }
+    report(&mut r, out, "");
+}
+
+fn case_rocks_transient(case: u64, rng: &mut Rng, out: &mut CaseOut) {
+    let sc = gen_script(rng.next_u64(), &TRANSIENT);
+    let steps = expand(&sc.spec, &sc.ops);
+    fold_steps(out, &sc.spec, &steps);
+    // A second temporary store, opened first and read last: the same plane, agent and item names,
+    // holding markers of its own.
+    let side = match open_rocks_store(None, default_db_opts()) {
+        Ok(server) => extras::SideStore::open(server, PLANE, &sc.spec),
+        Err(e) => Err(("open_rocks_store", e)),
+    };
+    let side = match side {
+        Ok(s) => s,
+        Err((op, e)) => {
+            return match runner::classify_store_error(op, &e) {
+                Err(why) => out.inconclusive(why),
+                Ok((sig, what)) => {
+                    out.nontrivial = true;
+                    out.violation(P, format!("transient/{sig}"), format!("second temporary store: {what}"), json!({"spec": sc.spec.describe()}))
+                }
+            };
+        }
+    };
+    let mut r = Runner::new(&sc.spec, transient_backend());
+    r.kinds_mode = true;
+    r.context = json!("open_rocks_store(None, default_db_opts()): database in a temporary directory, one plane, never reopened; a second such store is open at the same time");
+    let done = run_steps(&mut r, &steps, out);
+    if done {
+        match side.verify() {
+            Ok(n) => {
+                out.events += n;
+                out.count("second_temporary_store_holds_exactly_its_own_markers");
+            }
+            Err(extras::SideError::Store(op, e)) => match runner::classify_store_error(op, &e) {
+                Err(why) => out.inconclusive(why),
+                Ok((sig, what)) => out.violation(P, format!("transient/{sig}"), format!("second temporary store: {what}"), json!({"spec": sc.spec.describe()})),
+            },
+            Err(extras::SideError::Differs(what)) => out.violation(
+                P,
+                "transient/second-store-content-differs",
+                "a second store opened by open_rocks_store(None, ..) does not hold exactly what was written into it while another temporary store was written under the same names",
+                json!({"spec": sc.spec.describe(), "difference": what}),
+            ),
+        }
+    }
+    drop(side);
+    r.close_all();
+    let read_data = r.counters.get("read_map_entries_ok").copied().unwrap_or(0) + r.counters.get("get_value_some_ok").copied().unwrap_or(0) > 0;
+    out.nontrivial = (done && read_data) || !r.viols.is_empty() || !out.violations.is_empty();
+    if case < 3 {
+        out.set_sample(sample_of(&sc.spec, &steps, &sc.keys));
+    }
+    report(&mut r, out, "");
+}
+
+/// A malformed key under the prefix of one map item, written by a foreign writer while the store
+/// is closed. No history over the persistence traits produces such a key, so the statement only
+/// decides the surroundings: every other item answers by the model, the read of the item that was
+/// hit either fails (`InvalidKey`, counted) or returns exactly the item's entries, an accepted
+/// `clear_map` of the item makes it readable again, identifiers are unchanged, nothing panics.
+fn case_rocks_foreign(case: u64, rng: &mut Rng, out: &mut CaseOut) {
+    let mut sc = gen_script(rng.next_u64(), &FOREIGN);
+    let all: Vec<(usize, usize)> = (0..sc.spec.agents.len()).flat_map(|a| (0..sc.spec.agents[a].items.len()).map(move |i| (a, i))).collect();
+    let (a, i) = *rng.pick(&all);
+    if !sc.spec.agents[a].items[i].map {
+        // The item that is hit must be a map; regenerate the operations for the changed spec.
+        sc.spec.agents[a].items[i].map = true;
+        sc.ops = gen_ops(rng, &sc.spec, &sc.keys, &FOREIGN, 0);
+        sc.ops.push(Op::Audit);
+    }
+    let variant = rng.below(4) as u8;
+    out.sig(&(a, i, variant));
+    let mut ops = sc.ops.clone();
+    if rng.chance(2, 3) {
+        // Mostly: entries around the malformed key.
+        for s in 0..rng.range(1, 3) as u32 {
+            ops.push(Op::Upd(a, i, rng.pick(&sc.keys).clone(), (2_000_000 + s).to_le_bytes().to_vec()));
+        }
+    }
+    ops.push(Op::Foreign(a, i, variant));
+    ops.push(Op::Audit);
+    ops.extend(gen_ops(rng, &sc.spec, &sc.keys, &FOREIGN, 1_000_000));
+    ops.push(Op::Audit);
+    ops.push(Op::Clear(a, i));
+    ops.push(Op::Audit);
+    ops.extend(gen_ops(rng, &sc.spec, &sc.keys, &FOREIGN, 3_000_000));
+    ops.push(Op::Reopen);
+    ops.push(Op::Audit);
+    let steps = expand(&sc.spec, &ops);
+    fold_steps(out, &sc.spec, &steps);
+    let scratch = Scratch::new("foreign", case);
+    let mut r = Runner::new(&sc.spec, rocks_backend(scratch.0.clone()));
+    r.context = json!("open_rocks_store(Some(scratch dir), default_db_opts()), one plane; while the store is closed a foreign writer (the rocksdb crate directly) puts one key shorter than a well-formed map key under the key prefix of one map item into the column family map_lanes");
+    let done = run_steps(&mut r, &steps, out);
+    r.close_all();
+    let judged = counter(&r.counters, "foreign_short_key/consume_next_answered") + counter(&r.counters, "foreign_short_key/read_map_");
+    out.nontrivial = (done && judged > 0 && r.counters.contains_key("foreign_short_key/clear_map_accepted")) || !r.viols.is_empty();
+    if case < 3 {
+        out.set_sample(sample_of(&sc.spec, &steps, &sc.keys));
+    }
+    report(&mut r, out, "");
+}
+
+fn case_disabled(case: u64, rng: &mut Rng, out: &mut CaseOut) {
+    let sc = gen_script(rng.next_u64(), &DISABLED);
+    let steps = expand(&sc.spec, &sc.ops);
+    fold_steps(out, &sc.spec, &steps);
+    extras::run_disabled(&sc.spec, &steps, out);
+    if case < 3 {
+        out.set_sample(sample_of(&sc.spec, &steps, &sc.keys));
+    }
 }
 
 // ------------------------------------------------------------------------------------------------
@@ -730,6 +956,56 @@ fn main() {
             false,
             n,
             |c, rng, out| case_rocks_reopen(c, rng, out, thorough),
+        );
+    }
+    if want("mem-kinds") {
+        let n = s.args.budget(2_000, 100_000);
+        s.part(
+            "mem-kinds",
+            "one seeded history per case on InMemoryPlanePersistence in which about one operation in six is of the other kind than the item is used with (put_value/get_value/delete_value through the identifier of a map item, update_map/remove_map/clear_map/read_map through the identifier of a value item), each followed by reads of the item (one time in three of every item) through both get_value and read_map; an InvalidOperation answer is accepted only while the item holds (or, after remove_map emptied it, may hold) data of the other kind, and after a refused write both representations of the item are read at once and must be unchanged; an accepted write must be reflected by the later reads of its kind and must not change the item's data of the other kind (read at once whenever such data exists or the write was of the other kind); plus everything the part mem checks; non-trivial when the history completed, at least one such operation was refused or accepted and a read returned stored data; distinct by hash of spec+steps",
+            false,
+            n,
+            case_mem_kinds,
+        );
+    }
+    if want("rocks-kinds") {
+        let n = s.args.budget(56, 800);
+        s.part(
+            "rocks-kinds",
+            "as mem-kinds on open_rocks_store(scratch dir) with reopen points (3 seeded + final; thorough: ~10% more), both representations of every item compared with the model before and after each reopen; about one step in fifty tries to open the directory a second time while it is open (refused or not, the open store must go on answering by the model); non-trivial when the history completed, a reopen happened with data in the store and at least one operation of the other kind was accepted or refused; distinct by hash of spec+steps",
+            false,
+            n,
+            |c, rng, out| case_rocks_kinds(c, rng, out, thorough),
+        );
+    }
+    if want("rocks-transient") {
+        let n = s.args.budget(40, 600);
+        s.part(
+            "rocks-transient",
+            "one seeded history per case (a few operations of the other kind included) on open_rocks_store(None, ..) - a database in a temporary directory - under the same model, while a second store opened the same way holds markers under the same plane, agent and item names; at the end the second store must hold exactly its markers; non-trivial when the history completed and a read returned stored data; distinct by hash of spec+steps",
+            false,
+            n,
+            case_rocks_transient,
+        );
+    }
+    if want("rocks-foreign-key") {
+        let n = s.args.budget(24, 400);
+        s.part(
+            "rocks-foreign-key",
+            "one seeded history per case on open_rocks_store(scratch dir); while the store is closed a foreign writer puts one malformed key (9, 10, 13 or 17 bytes: shorter than the fixed part of a map key) under the key prefix of one map item into the map column family; after the reopen every other item must answer by the model, read_map of the item that was hit must fail with InvalidKey (counted) or return exactly the item's entries, and after an accepted clear_map of that item it must answer by the model again (also across a last reopen); identifiers unchanged; non-trivial when the history completed, a read of the item was judged while the key was there and the clear_map was accepted; distinct by hash of spec+steps+item+key shape",
+            false,
+            n,
+            case_rocks_foreign,
+        );
+    }
+    if want("disabled") {
+        let n = s.args.budget(400, 20_000);
+        s.part(
+            "disabled",
+            "one seeded history per case on swimos_api::persistence::StoreDisabled through ServerPersistence/PlanePersistence/NodePersistence/RangeConsumer; the statement of C13 is about the two real stores, so only its weakening that holds for a store that stores nothing is checked: every call succeeds, get_value leaves the caller's buffer intact and returns nothing or the model's value, read_map returns no entry that the model does not hold; non-trivial when all seven data operations and id_for ran; distinct by hash of spec+steps",
+            false,
+            n,
+            case_disabled,
         );
     }
     if want("rocks-concurrent-ids") {
